@@ -219,7 +219,8 @@ pub enum Tail {
 pub struct Doc {
     pub front: Option<FrontSpec>,
     pub blocks: Vec<Blk>,
-    /// number of blank lines after each block (>= 1)
+    /// number of blank lines after each block; 0 is honoured only between a prose / heading block
+    /// and a fenced block (either order), otherwise it means 1
     pub gaps: Vec<u8>,
     pub tail: Tail,
     pub crlf: bool,
@@ -444,7 +445,13 @@ pub fn render(doc: &Doc) -> Rendered {
             }
         }
         spans.push((start, lines.len()));
-        let gap = doc.gaps.get(bi).copied().unwrap_or(1).max(1);
+        let fenced = |b: &Blk| matches!(b, Blk::Scrut(_) | Blk::Foreign { .. } | Blk::EmptyScrut { .. } | Blk::CommentOnlyScrut { .. } | Blk::ExitOnlyScrut { .. });
+        let text = |b: &Blk| matches!(b, Blk::Prose { .. } | Blk::Heading { .. });
+        let tight_ok = doc.blocks.get(bi + 1).map(|n| (fenced(blk) && text(n)) || (text(blk) && fenced(n))).unwrap_or(false);
+        let gap = match doc.gaps.get(bi).copied().unwrap_or(1) {
+            0 if tight_ok => 0,
+            g => g.max(1),
+        };
         for _ in 0..gap {
             lines.push(String::new());
         }
@@ -554,6 +561,11 @@ pub const BODY_LINES: &[&str] = &[
     "`one`",
     "text (with parens)",
     "[not exit] code",
+    "[-1]",
+    "[+1]",
+    "[ 1]",
+    "[1 ]",
+    "[0x1]",
     "ünï 世界",
     "* star",
     "(equal)",
@@ -571,7 +583,7 @@ pub const COMMANDS: &[&str] = &[
     "echo {a,b}",
     "",
 ];
-pub const CONT: &[&str] = &["arg", "EOF", "| sort", "  indented", "> nested"];
+pub const CONT: &[&str] = &["arg", "EOF", "| sort", "  indented", "> nested", "", ""];
 pub const COMMENTS: &[&str] = &["# a comment", "#!shebang-ish", "#", "# $ not a command"];
 pub const FOREIGN_INFO: &[&str] = &["python", "sh", "text", "c++", "scrutx", "日本語", "bash title=x", "python {linenos=true}", "js {1,3}", "日本語 {x}", "é{"];
 pub const FOREIGN_BODY: &[&str] = &[
@@ -708,7 +720,7 @@ pub fn core_doc(max_blocks: usize, lf_only: bool) -> BoxedStrategy<Doc> {
     (
         proptest::option::weighted(0.3, front()),
         vec(core_blk(), 0..=max_blocks),
-        vec(1u8..3, max_blocks),
+        vec(prop_oneof![1 => Just(0u8), 3 => Just(1u8), 2 => Just(2u8)], max_blocks),
         proptest::bool::weighted(if lf_only { 0.0 } else { 0.15 }),
         proptest::bool::weighted(0.85),
     )
